@@ -17,6 +17,9 @@ pub enum Pat {
     Tup(Vec<Pat>),
 }
 
+#[derive(Clone, Debug)]
+pub struct DeepShape(pub Vec<Option<Box<DeepShape>>>);
+
 /// stage-1 expression (float typed unless noted)
 #[derive(Clone, Debug, PartialEq)]
 pub enum X {
@@ -1157,6 +1160,57 @@ impl<'a> SG<'a> {
     fn num(&mut self) -> X {
         X::Num(*self.g.pick(NUMS))
     }
+    /// nested tuple shape: `None` = leaf. The chain of first elements stays a pair of pairs so that
+    /// the literal's first element ends within the parser's tuple lookahead.
+    fn deep_shape(&mut self, levels: u32, first_chain: bool, leaves: &mut usize) -> Option<Vec<Option<Box<DeepShape>>>> {
+        let n = if first_chain { 2 } else { 2 + self.g.usize_below(2) };
+        let mut out = vec![];
+        for i in 0..n {
+            if levels > 0 && self.g.bool(1, 2) {
+                let sub = self.deep_shape(levels - 1, first_chain || i == 0, leaves);
+                out.push(Some(Box::new(DeepShape(sub.unwrap()))));
+            } else {
+                *leaves += 1;
+                out.push(None);
+            }
+        }
+        Some(out)
+    }
+    fn shape_pat(shape: &Option<Vec<Option<Box<DeepShape>>>>, ns: &[String], i: &mut usize) -> Pat {
+        Pat::Tup(
+            shape
+                .as_ref()
+                .unwrap()
+                .iter()
+                .map(|e| match e {
+                    None => {
+                        *i += 1;
+                        Pat::Name(ns[*i - 1].clone())
+                    }
+                    Some(d) => Self::shape_pat(&Some(d.0.clone()), ns, i),
+                })
+                .collect(),
+        )
+    }
+    fn shape_val(&mut self, shape: &Option<Vec<Option<Box<DeepShape>>>>, first_chain: bool, f: i32, c: &QC) -> X {
+        let es = shape.as_ref().unwrap().clone();
+        let mut out = vec![];
+        for (i, e) in es.iter().enumerate() {
+            // position 0 of every tuple literal (and everything inside it) stays short
+            let fc = first_chain || i == 0;
+            out.push(match e {
+                None => {
+                    if fc || self.g.bool(2, 3) {
+                        self.atom(c)
+                    } else {
+                        self.gx(f, c)
+                    }
+                }
+                Some(d) => self.shape_val(&Some(d.0.clone()), fc, f, c),
+            });
+        }
+        X::Tuple(out)
+    }
     fn atom(&mut self, c: &QC) -> X {
         let fl = self.usable(c, |k| *k == K::F);
         if !fl.is_empty() && self.g.bool(2, 3) {
@@ -1266,7 +1320,21 @@ impl<'a> SG<'a> {
             }
             9 => {
                 let nested = self.g.bool(1, 4);
-                if nested {
+                if nested && self.g.bool(1, 2) {
+                    // up to three levels with several nested siblings: (((a, b), (c, d)), (e, f))
+                    let mut k = 0usize;
+                    let shape = self.deep_shape(2, true, &mut k);
+                    let ns = self.distinct_binders(k);
+                    let mut i = 0usize;
+                    let pat = Self::shape_pat(&shape, &ns, &mut i);
+                    let v = self.shape_val(&shape, false, f, c);
+                    for n in &ns {
+                        self.scope.push((n.clone(), K::F));
+                    }
+                    let b = self.gx(f, c);
+                    self.scope.truncate(self.scope.len() - k);
+                    X::Let(pat, bx(v), bx(b))
+                } else if nested {
                     let ns = self.distinct_binders(3);
                     let v = X::Tuple(vec![X::Tuple(vec![self.atom(c), self.atom(c)]), self.gx(f, c)]);
                     for n in &ns {
